@@ -1,5 +1,9 @@
 import BoltonsVerif.C18.Model
+/-
+C18 — the prefix code standing for UTF-8: `encode`, `fit`, the incremental decoder on valid input.
+-/
 namespace C18
+
 
 /-! ### the prefix code -/
 
